@@ -59,6 +59,9 @@ CLAIMED = {
  "C08": dict(cat="exploration", technique="mutation/grammar fuzzing in supervised worker subprocesses (BEGIN/END protocol, panic recovery, CPU-time and RSS watchdogs, solo re-run under RLIMIT_CPU) + CLI exit/stderr classifier",
    text="Every patch of testdata/, examples/ and the harness' schema libraries is mutated (truncation, token insertion/replacement, span/line deletion, duplication, swaps, prefix flips, random bytes), complemented by grammar-generated ill-typed patches and random strings; accepted patches are applied to 12 construct-covering targets. Panics, fatal errors, exit statuses other than 0/1, CPU exhaustion (decided on CPU time, confirmed alone under RLIMIT_CPU) and memory blow-up are violations, de-duplicated by top in-repo frame.",
    note="Hangs are decided on consumed CPU time, never wall-clock; a wall-clock watchdog only makes a run inconclusive (exit 2).", ref="5/C08"),
+ "C14": dict(cat="exploration", technique="Go race detector (harness + CLI built -race) + per-operation comparison with the stateless solo model + reflect immutability fingerprint of the parsed patch",
+   text="One parsed patch is shared by 2-24 goroutines released from a barrier, each making 4-13 Apply calls over a shuffled mix of files (with sites, without, unparseable, generated) at GOMAXPROCS 1/4/16, followed by sequential permutations; the CLI (-race) processes the same file set solo, grouped, in shuffled orders, with duplicates and via the directory. Violations: any race-detector report, any result different from the solo result F(file), any change of the deep fingerprint of *patch.File.",
+   note="The sequential model is stateless (Apply is specified to be pure), so linearizability reduces to a per-operation check and no history checker is needed. Overlap is measured (overlapping call pairs reported in the evidence), never used for a verdict.", ref="5/C14"),
 #NEXT
 }
 
